@@ -123,11 +123,12 @@ SPECS = {
         {"entry": "vh_c12_entropy", "label": "vh_c12_entropy.draw2", "no_replace": ["createId"], "fix": {"entropy": 65536}, "distinct_trace": "id"},
         {"entry": "vh_c12_stable"}]}]},
  "C09": {
-  "explanation": "Full stack on the HDF5 model, which counts every mutation of a file and enforces the access intent: a library-produced file is opened ReadOnly, read through every getter, each of 40 mutating API calls is attempted, the file is closed - the mutation counter must never move and every call must throw; ReadWrite preserves the observation; Overwrite yields an empty valid file; absent path / plain HDF5 file are refused. Header defects (format, version, id) are decided in C10.",
+  "explanation": "Full stack on the HDF5 model, which counts every mutation of a file and enforces the access intent: a library-produced file is opened ReadOnly, read through every getter, each of 40 mutating API calls is attempted, the file is closed - the mutation counter must never move and every call must throw; ReadWrite preserves the observation; Overwrite yields an empty valid file; absent path / plain HDF5 file / files that are not HDF5 at all (empty or arbitrary bytes) are refused and left untouched; the real FileHDF5::fileExists runs over a source-level std::ifstream stand-in (rt/vrt_fstream.hpp). Header defects (format, version, id) are decided in C10.",
   "bounds": {"mutating_calls": 40, "file": "harness/world.hpp", "modes": 3},
   "outside": ["'not a single byte changes' on a real file: that is libhdf5 honouring H5F_ACC_RDONLY", "non-HDF5 files", "compression defaults (recorded only)"],
   "assumptions": ["libhdf5 replaced by h5model; boost::filesystem::exists and FileHDF5::fileExists answered by the model's file table"],
-  "harnesses": [{"file": "C09_modes.cpp", "entries": [{"entry": "vh_c09_readonly"}, {"entry": "vh_c09_readwrite_overwrite"}]}]},
+  "harnesses": [{"file": "C09_modes.cpp", "entries": [{"entry": "vh_c09_readonly", "label": "vh_c09_readonly.op%d" % o, "fix": {"op": o}} for o in range(40)]
+        + [{"entry": "vh_c09_readwrite_overwrite", "label": "vh_c09_readwrite_overwrite.c%d" % c, "fix": {"case": c}} for c in range(5)]}]},
  "C04": {
   "explanation": "Full stack on the HDF5 model: in the fully linked world file one of 21 entities (every kind, including link targets with several holders and subtree roots) is deleted by name, by id or by handle; every entity is then re-collected through the public getters and compared with the pre-state: deleted set unreachable, survivors' attributes/data identical, their link lists equal to the old ones minus links into the deleted set, also after reopen.",
   "bounds": {"victims": 21, "ways": ["name", "id", "handle"], "graph": "harness/world.hpp (one target linked from up to 3 holders; source/section subtrees of depth 2)"},
